@@ -28,6 +28,8 @@ ERRS = {'NoResponse': 'ENoResponse', 'Response message length too large': 'ETooL
 ATTR_NAMES = {'AName': 'Name', 'AGroup': 'Object Group', 'ASens': 'Sensitive', 'AAlg': 'Cryptographic Algorithm', 'AUnknown': 'Bogus Attribute'}
 ATTR_TAGS = {'AName': 'NAME', 'AGroup': 'OBJECT_GROUP', 'ASens': 'SENSITIVE', 'AAlg': 'CRYPTOGRAPHIC_ALGORITHM'}
 AES = enums.CryptographicAlgorithm.AES
+ID_LESS_KINDS = ('get', 'activate', 'revoke', 'destroy', 'modify', 'set', 'delete')
+RAW_PLACEHOLDER_USERS = {'encrypt_placeholder', 'get_wrapped_placeholder', 'get_attribute_list_placeholder'}
 READ_ONLY_OPS = {'GET', 'GET_ATTRIBUTES', 'GET_ATTRIBUTE_LIST', 'LOCATE', 'QUERY', 'DISCOVER_VERSIONS', 'ENCRYPT', 'DECRYPT', 'SIGN',
                  'SIGNATURE_VERIFY', 'MAC', 'CHECK'}
 
@@ -182,7 +184,7 @@ def coq_body(b, ok=False):
         pn, vn = RAW_KEYPAIR_NAMES.get(b[1], ([], []))
         return '(BKeyPair %s %s %s)' % (cb(ok), czl(pn), czl(vn))
     if k == 'oracle_derive':
-        return '(BDerive %s 2 [])' % cb(ok)
+        return '(BDerive %s %d [])' % (cb(ok), 7 if 'secret_data' in b[1] else 2)
     if k == 'create':
         _, sym, unsup, a, l, m, lok, names, groups, sens = b
         return '(BCreate %s %s %s %s %s %s %s %s %s)' % (cb(sym), cb(unsup), cb(a), cb(l), cb(m), cb(lok), czl(names), czl(groups), copt(sens, cb))
@@ -273,6 +275,10 @@ def _cp(**kw):
 E = enums
 
 
+def _dparams():
+    return kdrv.cattrs.DerivationParameters(cryptographic_parameters=_cp(hashing_algorithm=E.HashingAlgorithm.SHA_256), derivation_data=b'x')
+
+
 def _wrap_spec(key_uid, encoding=None, names=None):
     return kdrv.cobjects.KeyWrappingSpecification(
         wrapping_method=E.WrappingMethod.ENCRYPT,
@@ -295,15 +301,18 @@ RAW = {
                                               private=[kdrv.attr(AT.CRYPTOGRAPHIC_USAGE_MASK, [E.CryptographicUsageMask.SIGN]), kdrv.attr(AT.NAME, kdrv.name_value('n96'), 0)]),
     'ckp_dup_public_names': lambda: kdrv.create_key_pair(public=[kdrv.attr(AT.CRYPTOGRAPHIC_USAGE_MASK, [E.CryptographicUsageMask.VERIFY]),
                                                                   kdrv.attr(AT.NAME, kdrv.name_value('p1'), 0), kdrv.attr(AT.NAME, kdrv.name_value('p1'), 1)]),
-    'derive_no_mask': lambda: kdrv.derive_key(['2'], params=kdrv.cattrs.DerivationParameters(
-        cryptographic_parameters=_cp(hashing_algorithm=E.HashingAlgorithm.SHA_256), derivation_data=b'x')),
-    'derive_missing': lambda: kdrv.derive_key(['99'], params=kdrv.cattrs.DerivationParameters(
-        cryptographic_parameters=_cp(hashing_algorithm=E.HashingAlgorithm.SHA_256), derivation_data=b'x')),
-    'derive_ok': lambda: kdrv.derive_key(['10'], params=kdrv.cattrs.DerivationParameters(
-        cryptographic_parameters=_cp(hashing_algorithm=E.HashingAlgorithm.SHA_256), derivation_data=b'x')),
-    'derive_dup_names': lambda: kdrv.derive_key(['10'], params=kdrv.cattrs.DerivationParameters(
-        cryptographic_parameters=_cp(hashing_algorithm=E.HashingAlgorithm.SHA_256), derivation_data=b'x'),
-        attrs=kdrv.sym_attrs(AES, 128, kdrv.ENC_DEC, names=['d', 'd'])),
+    'derive_no_mask': lambda: kdrv.derive_key(['2'], method=E.DerivationMethod.HMAC, params=_dparams()),
+    'derive_missing': lambda: kdrv.derive_key(['99'], method=E.DerivationMethod.HMAC, params=_dparams()),
+    'derive_ok': lambda: kdrv.derive_key(['10'], method=E.DerivationMethod.HMAC, params=_dparams()),
+    'derive_hash_both': lambda: kdrv.derive_key(['10'], params=_dparams()),
+    'derive_no_params': lambda: kdrv.derive_key(['10'], method=E.DerivationMethod.HMAC, params=kdrv.cattrs.DerivationParameters(derivation_data=b'x')),
+    'derive_bad_length': lambda: kdrv.derive_key(['10'], method=E.DerivationMethod.HMAC, params=_dparams(), attrs=kdrv.sym_attrs(AES, 100, kdrv.ENC_DEC)),
+    'derive_too_long': lambda: kdrv.derive_key(['10'], method=E.DerivationMethod.HMAC, params=_dparams(), attrs=kdrv.sym_attrs(AES, 4096, kdrv.ENC_DEC)),
+    'derive_dup_names': lambda: kdrv.derive_key(['10'], method=E.DerivationMethod.HMAC, params=_dparams(),
+                                                attrs=kdrv.sym_attrs(AES, 128, kdrv.ENC_DEC, names=['d', 'd'])),
+    'derive_secret_data': lambda: kdrv.derive_key(['10'], method=E.DerivationMethod.HMAC, params=_dparams(), otype=OT.SECRET_DATA,
+                                                  attrs=[kdrv.attr(AT.CRYPTOGRAPHIC_LENGTH, 128), kdrv.attr(AT.CRYPTOGRAPHIC_USAGE_MASK, list(kdrv.ENC_DEC))]),
+    'derive_secret_data_with_alg': lambda: kdrv.derive_key(['10'], method=E.DerivationMethod.HMAC, params=_dparams(), otype=OT.SECRET_DATA),
     'encrypt_ok': lambda: kdrv.encrypt('2', _cp(block_cipher_mode=E.BlockCipherMode.CBC, padding_method=E.PaddingMethod.PKCS5,
                                                cryptographic_algorithm=AES), b'data', b'\x01' * 16),
     'encrypt_preactive': lambda: kdrv.encrypt('1', _cp(block_cipher_mode=E.BlockCipherMode.CBC, padding_method=E.PaddingMethod.PKCS5,
@@ -494,6 +503,7 @@ class Impl:
     def __init__(self, workdir, path=None):
         self.eng = kdrv.Engine(path=path, workdir=workdir)
         self._patch()
+        self.connection = None
 
     def _patch(self):
         ce = self.eng.engine._cryptography_engine
@@ -512,12 +522,13 @@ class Impl:
         self.eng.engine._data_store.dispose()
         shutil.copy(src, self.eng.path)
         self.last_dump = None
+        self.connection = None
         return self
 
     def run(self, req, wire=None):
         """Process one abstract request (wire = {'max': n | None}: as bytes through the real KmipSession). -> observation dict (everything the oracles and the comparator need)."""
         e = self.eng.engine
-        trace = []
+        trace, touched = [], []
         real = e._process_operation
         d_before = self.eng.dump()
         last = [d_before]
@@ -532,6 +543,7 @@ class Impl:
                 dirty = bool(s.dirty) or bool(s.new) or bool(s.deleted)
                 pl = e._id_placeholder
                 trace.append((before != after, dirty, int(pl) if pl is not None else None))
+                touched.append(touched_uids(before, after) if before != after else [])
                 last[0] = after
         e._process_operation = traced
         try:
@@ -541,7 +553,7 @@ class Impl:
                 r = self.eng.request(build_items(req), user=req['user'], groups=None, **kw)
                 size = None
             else:
-                r, size = self.through_session(req, kw, wire['max'])
+                r, size = self.through_session(req, kw, wire['max'], wire.get('same', False))
         finally:
             del e._process_operation
         d_after = self.eng.dump()
@@ -555,11 +567,11 @@ class Impl:
                 err = 'UNKNOWN:' + r['error']['message']
         results = [{'op': i['op'], 'bid': i['bid'], 'ok': kdrv.ok(i), 'reason': i['reason'], 'message': i['message'],
                     'uid': kdrv.first_uid(i)} for i in r['items']]
-        return {'err': err, 'err_message': r['error'] and r['error']['message'], 'results': results, 'trace': trace, 'size': size,
+        return {'err': err, 'err_message': r['error'] and r['error']['message'], 'results': results, 'trace': trace, 'touched': touched, 'size': size,
                 'final': abstract_store(d_after), 'dump_before': d_before, 'dump_after': d_after,
                 'moved_outside_items': last[0] != d_after}
 
-    def through_session(self, req, kw, max_size):
+    def through_session(self, req, kw, max_size, same_connection=False):
         """Encode the request, hand the bytes to a real KmipSession, decode what it sends back."""
         from kmip.core import utils as kutils
         from kmip.core.messages import contents, messages
@@ -572,11 +584,17 @@ class Impl:
             rm.write(buf, kmip_version=kv)
         except Exception as e:
             raise NotSendable(type(e).__name__)
-        conn = Conn(buf.buffer, client_cert(req['user']))
-        tap = EngineTap(self.eng.engine)
         engine_mod.time = self.eng.clock
-        sess = session_mod.KmipSession(tap, conn, ('192.0.2.8', 5696), name='c08', enable_tls_client_auth=True, auth_settings=[])
-        sess._logger.setLevel(logging.CRITICAL + 1)
+        if same_connection and self.connection is not None and self.connection[0] == req['user']:
+            _, sess, conn, tap = self.connection            # the next request on the SAME connection / session object
+            conn.data, conn.sent = bytes(buf.buffer), []
+            tap.response = tap.version = tap.size = None
+        else:
+            conn = Conn(buf.buffer, client_cert(req['user']))
+            tap = EngineTap(self.eng.engine)
+            sess = session_mod.KmipSession(tap, conn, ('192.0.2.8', 5696), name='c08', enable_tls_client_auth=True, auth_settings=[])
+            sess._logger.setLevel(logging.CRITICAL + 1)
+            self.connection = (req['user'], sess, conn, tap) if same_connection else None
         try:
             sess._handle_message_loop()
             escaped = None
@@ -595,6 +613,23 @@ class Impl:
 
     def close(self):
         self.eng.close()
+
+
+def touched_uids(before, after):
+    """Unique identifiers whose stored object (or any of its child rows) differs between two dumps."""
+    def by_uid(d):
+        a = {o['uid']: o for o in abstract_store(d)['objs']}
+        raw = {}
+        for t, rows in d.items():
+            for r in rows:
+                u = r.get('uid', r.get('mo_uid', r.get('managed_object_id')))
+                if u is not None and t != 'sqlite_sequence':
+                    raw.setdefault(u, []).append((t, sorted(r.items(), key=lambda kv: kv[0])))
+        return a, raw
+    a0, r0 = by_uid(before)
+    a1, r1 = by_uid(after)
+    return sorted(u for u in set(a0) | set(a1) | set(r0) | set(r1)
+                  if a0.get(u) != a1.get(u) or sorted(map(repr, r0.get(u, []))) != sorted(map(repr, r1.get(u, []))))
 
 
 def abstract_store(d):
@@ -727,6 +762,15 @@ def creating(itm):
     return itm['b'][0] in ('create', 'register') or (itm['b'][0] in ('raw', 'oracle_kp', 'oracle_derive') and itm['op'] in ('CREATE', 'REGISTER', 'CREATE_KEY_PAIR', 'DERIVE_KEY'))
 
 
+def limit_from(extra, obs):
+    """Whose limit made the answer too large: 'this-request' only when the request itself states a Maximum Response Size that
+    the encoding of its own response exceeds."""
+    mx = (extra or {}).get('max_response_size')
+    if mx is not None and (obs.get('size') is None or obs['size'] > mx):
+        return 'this-request'
+    return 'not-this-request'
+
+
 def oracle(ctx, history, req_, pre_dump, obs, twin_factory=None, extra=None):
     """The property itself, evaluated on the implementation's behaviour alone.  -> list of violation kinds found."""
     found = []
@@ -748,7 +792,8 @@ def oracle(ctx, history, req_, pre_dump, obs, twin_factory=None, extra=None):
         if obs['dump_before'] != obs['dump_after'] or tr:
             v('request-error-with-effect', 'error answer %r although %d item(s) were executed (store %s)' % (
                 obs['err_message'], len(tr), 'changed' if obs['dump_before'] != obs['dump_after'] else 'unchanged'),
-              error=obs['err'], through=('KmipSession' if extra else 'KmipEngine'))
+              error=obs['err'], through=('KmipSession' if extra else 'KmipEngine'),
+              **({'limit_from': limit_from(extra, obs)} if obs['err'] == 'ETooLarge' else {}))
         return found
     # one result per processed item, in order, echoing operation and batch item id
     if len(res) > len(items) or len(res) != len(tr):
@@ -773,20 +818,27 @@ def oracle(ctx, history, req_, pre_dump, obs, twin_factory=None, extra=None):
         v('effect-outside-items', 'the store changed outside the processing of a reported item')
     if not any(c for c, _, _ in tr) and obs['dump_before'] != obs['dump_after']:
         v('unreported-effect', 'no item changed the store but the store differs after the request')
-    # placeholder: an identifier-less Get-like item addresses the object created last in this batch
+    # placeholder: an identifier-less item addresses the object created last in this batch by ANY of the four creating
+    # operations - judged by the identifier its answer names and by which stored object it changed, not by its status
     last_uid, alive = None, False
+    tch = obs.get('touched') or []
     for k, r in enumerate(res):
         b = items[k]['b']
-        if b[0] == 'get' and b[1] is None:
+        idless = (b[0] in ID_LESS_KINDS and b[1] is None) or (b[0] in ('raw', 'oracle_ro') and b[1] in RAW_PLACEHOLDER_USERS)
+        if idless:
             if last_uid is None and r['ok']:
                 v('placeholder-leak', 'identifier-less %s succeeded although nothing was created earlier in the batch' % r['op'], position=k)
-            if last_uid is not None and r['ok'] and r['uid'] != last_uid:
+            if last_uid is not None and r['ok'] and r['uid'] is not None and r['uid'] != last_uid:
                 v('placeholder-wrong', 'identifier-less %s answered for %s, the batch created %s last' % (r['op'], r['uid'], last_uid), position=k)
-            if last_uid is not None and alive and not r['ok'] and r['reason'] == 'ITEM_NOT_FOUND':   # (denied by the object's policy is not a placeholder matter)
-                v('placeholder-lost', 'identifier-less %s failed (%s) although the batch created %s and did not destroy it' % (r['op'], r['reason'], last_uid), position=k)
-        if r['ok'] and b[0] == 'destroy':
-            alive = alive and not (b[1] is None or str(b[1]) == last_uid)
+            if last_uid is not None and r['ok'] and k < len(tch) and tch[k] and set(tch[k]) != {int(last_uid)}:
+                v('placeholder-wrong-target', 'identifier-less %s changed object(s) %s, the batch created %s last' % (r['op'], tch[k], last_uid), position=k)
+            if last_uid is not None and alive and not r['ok'] and (r['message'] or '').startswith('Could not locate object: None'):
+                v('placeholder-lost', 'identifier-less %s failed (%s) although the batch created %s and did not destroy it' % (r['op'], r['message'], last_uid), position=k)
+        if r['ok'] and r['op'] == 'DESTROY' and k < len(tch) and last_uid is not None and int(last_uid) in tch[k]:
+            alive = False
         if r['ok'] and creating(items[k]):
+            if r['uid'] is None:
+                v('creation-without-identifier', '%s succeeded without naming the object it created' % r['op'], position=k)
             last_uid, alive = r['uid'], True
     # Neither failed items nor items that only read leave anything behind: the batch reduced to its successful
     # WRITING items gives the same answers for them and ends in the same store.
@@ -960,6 +1012,34 @@ class Runner:
         ctx.count('wire.max_%s.%s' % (max_size, obs['err'] or 'results'))
         return hits
 
+    def wire_sequence(self, steps, label):
+        """Several requests over ONE connection (one KmipSession object): steps = [(request, Maximum Response Size | None)]."""
+        ctx = self.ctx
+        im = self.fresh()
+        pre, earlier, hits = self.setup_store, [], []
+        for r, mx in steps:
+            r = dict(r, items=[i for i in r['items'] if expressible(i, r['ver'])])
+            try:
+                obs = im.run(r, wire={'max': mx, 'same': True})
+            except NotSendable as e:
+                ctx.count('wire.not_sendable.%s' % e)
+                return hits
+            if obs['err'] is not None and obs['err'].startswith('UNKNOWN'):
+                ctx.count('wire.rejected_by_parser')
+                return hits
+            self.scases.append(coq_scase(pre, r, im.now, obs, mx))
+            self.smeta.append({'label': label, 'history_after_setup': [], 'earlier_on_this_connection': list(earlier), 'request': r,
+                               'max_response_size': mx,
+                               'impl': {'err': obs['err'], 'size': obs['size'], 'results': [(x['op'], x['bid'], x['ok'], x['reason']) for x in obs['results']],
+                                        'trace': obs['trace'], 'final': obs['final']}})
+            hits += oracle(ctx, [], r, None, obs, None, extra={'max_response_size': mx, 'through': 'KmipSession',
+                                                               'earlier_on_this_connection': list(earlier)})
+            ctx.case_seen(canon(['wire-seq', earlier, r, mx, obs['err']]), nontrivial=True)
+            ctx.count('wire.sequence.position_%d.%s' % (len(earlier) + 1, obs['err'] or 'results'))
+            earlier.append({'request': r, 'max_response_size': mx})
+            pre = obs['final']
+        return hits
+
     def account(self, r, obs):
         ctx = self.ctx
         n = len(r['items'])
@@ -1094,6 +1174,17 @@ def gen_sweep(run, ctx):
         for ver in [(1, 2)] + ([] if quick else [(1, 4), (2, 0)]):
             run.sweep([req([I_raw(n), rng.choice(committing)], ver=ver, opt='CONTINUE')], 'sweep:R S')
             run.sweep([req([rng.choice(committing), I_raw(n), I_get(1), rng.choice(committing), I_get(1, 'GET_ATTRIBUTES')], ver=ver, opt='CONTINUE')], 'sweep:S R R S R')
+    # each of the four creating operations, behind an earlier creation K: the identifier-less items must act on the NEW object
+    creators = {'CREATE': lambda: I_create(names=[93]), 'REGISTER': lambda: I_register(7, names=[94]),
+                'CREATE_KEY_PAIR': lambda: I_raw('ckp'), 'DERIVE_KEY': lambda: I_raw('derive_ok')}
+    for first in sorted(creators):
+        for second in sorted(creators):
+            for ver in [(1, 2)] + ([] if quick else [(1, 0), (2, 0)]):
+                for opt in ['CONTINUE', None]:
+                    run.sweep([req([creators[first](), creators[second](), I_activate(), I_get(None, 'GET_ATTRIBUTES'), I_modify(None, 'AName', None, 90),
+                                    I_get(), I_revoke(None, True), I_destroy()], ver=ver, opt=opt)], 'sweep:creator creator users')
+        run.sweep([req([creators[first](), I_get(None, 'GET_ATTRIBUTES'), I_activate(), I_raw('encrypt_placeholder'), I_destroy(), I_get()], opt='CONTINUE')],
+                  'sweep:creator users')
     # creating items that fail late (after part of their work), then items that commit
     for n in sorted(RAW_KEYPAIR | RAW_DERIVE | {x for x in names if x.startswith(('register_', 'create_'))}):
         for opt in ['CONTINUE']:
@@ -1124,6 +1215,17 @@ def gen_wire(run, ctx):
     for r in fixed:
         for mx in [None, 0, 1, 64, 150, 300, 1048576]:
             run.wire([], r, mx, 'wire:fixed')
+    # one connection, several requests: a limit stated by one request must not outlive it
+    four = req([I_create(names=[84]), I_create(names=[85]), I_create(names=[86]), I_create(names=[87])])
+    for small in [1, 64, 256, 400]:
+        run.wire_sequence([(req([I_create(names=[88])]), small), (four, None), (req([I_ro('QUERY')]), None)], 'wire:sequence')
+        run.wire_sequence([(req([I_ro('QUERY')]), small), (req([I_create(names=[89]), I_activate(), I_get()], opt='CONTINUE'), 1048576), (four, None)],
+                          'wire:sequence')
+    run.wire_sequence([(four, None), (req([I_get(1)]), 0), (four, None), (req([I_destroy(1)]), 2000), (four, None)], 'wire:sequence')
+    seqpool = [m for m in run.meta if m['label'] in ('random', 'placeholder', 'mix:F S S') and not m['history_after_setup']]
+    rng.shuffle(seqpool)
+    for k in range(0, min(len(seqpool) - 3, 24 if quick else 300), 3):
+        run.wire_sequence([(m['request'], rng.choice([None, None, 1, 100, 300, 600, 1048576])) for m in seqpool[k:k + 3]], 'wire:sequence:random')
     pool = [m for m in run.meta if m['label'] in ('random', 'placeholder', 'mix:F S S', 'mix:S F S', 'mix:F S', 'header:options', 'header:time stamp')]
     rng.shuffle(pool)
     for m in pool[:(120 if quick else 1500)]:
@@ -1177,8 +1279,9 @@ def run(ctx):
     # that an entry recorded there is honoured before the next merge.  Nothing is written.
     fd = Path(__file__).resolve().parents[1] / 'findings.d' / 'C08.json'
     if fd.exists():
-        have = {f.get('id') for f in ctx.findings}
-        ctx.findings += [f for f in json.loads(fd.read_text()) if f.get('property') == 'C08' and f.get('id') not in have]
+        mine = [f for f in json.loads(fd.read_text()) if f.get('property') == 'C08']
+        ids = {f.get('id') for f in mine}
+        ctx.findings = [f for f in ctx.findings if f.get('id') not in ids] + mine     # findings.d is the source: its entry wins
     ctx.regen(only=['batchorder'])       # tie T: raise / mutation / commit order of every handler, from engine.py
     ctx.prove('props/C08.v', extra_targets=['theories/Batch/Cases.v', 'theories/Batch/SessionCases.v'])
     ctx.cov['source_order_residual'] = ctx.model_output(
@@ -1218,7 +1321,9 @@ def replay(ctx, data):
         prefix = list(c.get('history_after_setup', []))
         for q in prefix:
             im.run(q)
-        wire = {'max': c.get('max_response_size')} if c.get('through') == 'KmipSession' or 'max_response_size' in c else None
+        wire = {'max': c.get('max_response_size'), 'same': True} if c.get('through') == 'KmipSession' or 'max_response_size' in c else None
+        for e in c.get('earlier_on_this_connection', []):       # earlier requests on the same connection / session object
+            im.run(e['request'], wire={'max': e['max_response_size'], 'same': True})
         obs = im.run(c['request'], wire=wire)
 
         def twin_at_same_point():
@@ -1228,7 +1333,8 @@ def replay(ctx, data):
             return t
         before = len(ctx.violations) + len(ctx.known_hits)
         hits = oracle(ctx, prefix, c['request'], None, obs, None if wire else twin_at_same_point,
-                      extra=({'max_response_size': wire['max'], 'through': 'KmipSession'} if wire else None))
+                      extra=({'max_response_size': wire['max'], 'through': 'KmipSession',
+                              'earlier_on_this_connection': c.get('earlier_on_this_connection', [])} if wire else None))
         print('replayed', canon(c['request'])[:400])
         print('  error:', obs['err_message'], ' results:', [(x['op'], x['bid'], x['ok'], x['reason']) for x in obs['results']])
         print('  per item (store changed, session dirty, placeholder):', obs['trace'])
